@@ -54,13 +54,14 @@ def examples(cell, tier):
 def strategy(cell, tier):
     d = cell["d"]
     strata = opcheck.STRATA_BY_DIM[d]
-    tol = st.one_of(st.just(0.0), st.floats(-13.0, -1.0).map(lambda e: 10.0**e))
+    # large relative tolerances make the *asymmetry* of the closeness test visible: |a-b| <= atol + rtol*|b| (the second operand)
+    tol = st.one_of(st.just(0.0), st.floats(-13.0, -1.0).map(lambda e: 10.0**e), st.sampled_from((0.25, 0.4, 0.75, 1.0, 2.5)))
     parts = []
     for s in strata:
         parts.append(st.fixed_dictionaries({
             "a": gen.vec((s,)),
             "mask": st.lists(st.booleans(), min_size=d, max_size=d),
-            "pert": st.sampled_from(("ulp", "tiny", "small", "big")),
+            "pert": st.sampled_from(("ulp", "tiny", "small", "big", "half", "half")),
             # exact boundary values in the stored coordinates (zero radius with an arbitrary angle, zero components, -0.0)
             "special": st.sampled_from((None, None, None, "zero0", "zero1", "zero_all", "negzero0", "zero_last")),
             "rtol": tol, "atol": tol, "rfac": st.floats(1.0, 1e4), "afac": st.floats(1.0, 1e4),
@@ -77,6 +78,8 @@ def _perturb(x, kind):
         return x * (1 + 1e-12) if x != 0 else 1e-300
     if kind == "small":
         return x * (1 + 3e-6) + 1e-9
+    if kind == "half":
+        return x * 1.5 if x != 0 else 0.5
     return x * 1.37 + 0.11
 
 
